@@ -1291,3 +1291,410 @@ Qed.
 Theorem C19_ctor_names : forall attrs c, apply_attrs set_change_attr new_change attrs = Ok c ->
   forall k, In k (map fst attrs) -> In k change_attr_names.
 Proof. intros. eapply apply_attrs_never_ok; eauto. apply set_change_attr_unknown. Qed.
+
+(* ================================================================================================ *)
+(* C19 — structural equality                                                                         *)
+(* ================================================================================================ *)
+(* ---- Python's dict == dict, generically: same number of keys, every key of a is in b with an equal value ---- *)
+Section DictEq.
+  Context {K V : Type} (eqb : K -> K -> bool) (eqb_spec : forall a b, eqb a b = true <-> a = b) (R : V -> V -> bool).
+
+  Definition dict_sub (b a : list (K * V)) : bool :=
+    forallb (fun p => match assoc_get eqb (fst p) b with Some w => R (snd p) w | None => false end) a.
+  Definition dict_eqb (a b : list (K * V)) : bool := Nat.eqb (length a) (length b) && dict_sub b a.
+  (* the meaning: same key set, related values under every key *)
+  Definition dict_rel (a b : list (K * V)) : Prop :=
+    (forall k, In k (map fst a) <-> In k (map fst b)) /\
+    (forall k v w, assoc_get eqb k a = Some v -> assoc_get eqb k b = Some w -> R v w = true).
+
+  Lemma aget_some_key : forall k (a : list (K * V)) v, assoc_get eqb k a = Some v -> In k (map fst a).
+  Proof. intros k a v H. apply (aget_In eqb eqb_spec) in H. apply (in_map fst) in H. exact H. Qed.
+  Lemma key_aget_some : forall k (a : list (K * V)), In k (map fst a) -> exists v, assoc_get eqb k a = Some v.
+  Proof.
+    intros k a H. destruct (assoc_get eqb k a) eqn:E; eauto.
+    apply (aget_None_notin eqb eqb_spec) in E. contradiction.
+  Qed.
+  Lemma nodup_aget : forall (a : list (K * V)) k v, NoDup (map fst a) -> In (k, v) a -> assoc_get eqb k a = Some v.
+  Proof.
+    induction a as [|[k0 v0] a IH]; cbn; intros k v ND I; [tauto|].
+    inversion ND as [|? ? N1 N2]; subst. destruct I as [I|I].
+    - injection I as -> ->. rewrite (eqb_rfl eqb eqb_spec). reflexivity.
+    - rewrite (eqb_ne eqb eqb_spec).
+      + apply IH; auto.
+      + intro; subst. apply N1. apply (in_map fst) in I. exact I.
+  Qed.
+
+  Lemma dict_eqb_iff : forall a b, NoDup (map fst a) -> NoDup (map fst b) -> (dict_eqb a b = true <-> dict_rel a b).
+  Proof.
+    intros a b Na Nb. unfold dict_eqb, dict_sub. rewrite andb_true_iff, Nat.eqb_eq, forallb_forall. split.
+    - intros [L F].
+      assert (I1 : incl (map fst a) (map fst b)).
+      { intros k I. apply in_map_iff in I. destruct I as ([k' v] & <- & I). specialize (F _ I). cbn in F.
+        destruct (assoc_get eqb k' b) eqn:E; try discriminate. eapply aget_some_key; eauto. }
+      assert (I2 : incl (map fst b) (map fst a)).
+      { apply NoDup_length_incl; auto. rewrite !map_length. lia. }
+      split.
+      + intro k. split; [apply I1 | apply I2].
+      + intros k v w A Bk. apply (aget_In eqb eqb_spec) in A. specialize (F _ A). cbn in F. rewrite Bk in F. exact F.
+    - intros [KS PW]. split.
+      + apply Nat.le_antisymm; rewrite <- (map_length fst a), <- (map_length fst b); apply NoDup_incl_length; auto;
+          intros k I; apply KS; auto.
+      + intros [k v] I. cbn. pose proof (nodup_aget _ _ _ Na I) as A.
+        destruct (key_aget_some k b) as [w Bk]. { apply KS. eapply aget_some_key; eauto. }
+        rewrite Bk. eapply PW; eauto.
+  Qed.
+
+  (* one assignment d[k] = new with a value that is not == the old one (or under a new key) makes the dicts unequal;
+     no uniqueness assumption is needed *)
+  Lemma dict_eqb_perturb : forall a k new,
+    match assoc_get eqb k a with Some old => R old new = false | None => True end ->
+    dict_eqb a (assoc_set eqb k new a) = false.
+  Proof.
+    intros a k new H. unfold dict_eqb. destruct (assoc_get eqb k a) as [old|] eqn:E.
+    - apply andb_false_iff. right. unfold dict_sub.
+      destruct (forallb _ a) eqn:F; auto. rewrite forallb_forall in F.
+      apply (aget_In eqb eqb_spec) in E. specialize (F _ E). cbn in F.
+      rewrite (aget_set_same eqb eqb_spec) in F. congruence.
+    - apply (aget_None_notin eqb eqb_spec) in E. rewrite (aset_keys_absent eqb eqb_spec) by auto.
+      rewrite app_length. cbn. apply andb_false_iff. left. apply Nat.eqb_neq. lia.
+  Qed.
+End DictEq.
+
+Lemma dopts_eq_dict : forall a b, dopts_eq a b = dict_eqb beq wv_eq a b.
+Proof. reflexivity. Qed.
+
+Lemma keys_unique_NoDup : forall o, keys_unique o = true <-> NoDup (map fst o).
+Proof.
+  induction o as [|[k v] o IH]; cbn.
+  - split; auto. constructor.
+  - rewrite andb_true_iff, negb_true_iff, IH. split.
+    + intros [E N]. constructor; auto. intro I. apply in_map_iff in I. destruct I as ([k' v'] & <- & I).
+      assert (X : existsb (fun p => beq k' (fst p)) o = true); [|cbn in *; congruence].
+      apply existsb_exists. exists (k', v'). split; auto. apply beq_refl.
+    + intro ND. inversion ND as [|? ? N1 N2]; subst. split; auto.
+      destruct (existsb _ o) eqn:E; auto. apply existsb_exists in E. destruct E as ([k' v'] & I & E).
+      apply beq_eq in E. cbn in E. subst. exfalso. apply N1. apply (in_map fst) in I. exact I.
+Qed.
+
+(* ---- JSON values: induction principle, Python == ---- *)
+Section JsonInd.
+  Variable P : json -> Prop.
+  Hypothesis HNull : P JNull.
+  Hypothesis HBool : forall b, P (JBool b).
+  Hypothesis HInt : forall z, P (JInt z).
+  Hypothesis HFloat : forall r, P (JFloat r).
+  Hypothesis HStr : forall s, P (JStr s).
+  Hypothesis HList : forall l, Forall P l -> P (JList l).
+  Hypothesis HObj : forall kv, Forall (fun p => P (snd p)) kv -> P (JObj kv).
+  Hypothesis HBad : P JBad.
+  Fixpoint json_ind' (j : json) : P j :=
+    match j with
+    | JNull => HNull | JBool b => HBool b | JInt z => HInt z | JFloat r => HFloat r | JStr s => HStr s | JBad => HBad
+    | JList l => HList l ((fix go (l : list json) : Forall P l :=
+                             match l with [] => Forall_nil _ | x :: t => Forall_cons x (json_ind' x) (go t) end) l)
+    | JObj kv => HObj kv ((fix go (l : list (text * json)) : Forall (fun p => P (snd p)) l :=
+                             match l with [] => Forall_nil _ | (k, v) :: t => Forall_cons (k, v) (json_ind' v) (go t) end) kv)
+    end.
+End JsonInd.
+
+Lemma json_eq_list : forall x y, json_eq (JList x) (JList y) = list_eq2 json_eq x y.
+Proof. induction x as [|p x IH]; destruct y as [|q y]; try reflexivity. cbn [list_eq2]. rewrite <- IH. reflexivity. Qed.
+Definition jobj_go (y : list (text * json)) : list (text * json) -> bool :=
+  fix go (x : list (text * json)) : bool :=
+    match x with
+    | [] => true
+    | (k, v) :: x' => (match assoc_get teq k y with Some w => json_eq v w | None => false end) && go x'
+    end.
+Lemma json_eq_obj : forall x y, json_eq (JObj x) (JObj y) = dict_eqb teq json_eq x y.
+Proof.
+  intros x y. change (json_eq (JObj x) (JObj y)) with (Nat.eqb (length x) (length y) && jobj_go y x).
+  unfold dict_eqb. f_equal. induction x as [|[k v] x IH]; cbn; auto. rewrite IH. reflexivity.
+Qed.
+
+(* a predicate on every node of a JSON value *)
+Fixpoint json_all (P : json -> bool) (j : json) : bool :=
+  P j && match j with
+         | JList l => forallb (json_all P) l
+         | JObj kv => forallb (fun p => json_all P (snd p)) kv
+         | _ => true
+         end.
+Fixpoint tkeys_unique {V} (o : list (text * V)) : bool :=
+  match o with [] => true | (k, _) :: t => negb (existsb (fun p => teq k (fst p)) t) && tkeys_unique t end.
+Lemma tkeys_unique_NoDup : forall {V} (o : list (text * V)), tkeys_unique o = true <-> NoDup (map fst o).
+Proof.
+  induction o as [|[k v] o IH]; cbn.
+  - split; auto. constructor.
+  - rewrite andb_true_iff, negb_true_iff, IH. split.
+    + intros [E N]. constructor; auto. intro I. apply in_map_iff in I. destruct I as ([k' v'] & <- & I).
+      assert (X : existsb (fun p => teq k' (fst p)) o = true); [|cbn in *; congruence].
+      apply existsb_exists. exists (k', v'). split; auto. apply teq_refl.
+    + intro ND. inversion ND as [|? ? N1 N2]; subst. split; auto.
+      destruct (existsb _ o) eqn:E; auto. apply existsb_exists in E. destruct E as ([k' v'] & I & E).
+      apply teq_eq in E. cbn in E. subst. exfalso. apply N1. apply (in_map fst) in I. exact I.
+Qed.
+(* dict keys are unique (always true of a Python dict; a condition on model values) *)
+Definition json_keys_ok : json -> bool := json_all (fun j => match j with JObj kv => tkeys_unique kv | _ => true end).
+(* no value that json.dumps rejects — such a value is modelled as not even equal to itself *)
+Definition json_nobad : json -> bool := json_all (fun j => match j with JBad => false | _ => true end).
+(* no boolean anywhere (so that Python's True == 1 cannot arise) *)
+Definition json_nobool : json -> bool := json_all (fun j => match j with JBool _ | JBad => false | _ => true end).
+
+Lemma json_all_list : forall P l, json_all P (JList l) = true -> Forall (fun x => json_all P x = true) l.
+Proof. intros P l H. cbn in H. apply andb_true_iff in H as [_ H]. rewrite forallb_forall in H. apply Forall_forall. auto. Qed.
+Lemma json_all_obj : forall P kv, json_all P (JObj kv) = true -> Forall (fun p => json_all P (snd p) = true) kv.
+Proof. intros P l H. cbn in H. apply andb_true_iff in H as [_ H]. rewrite forallb_forall in H. apply Forall_forall. auto. Qed.
+Lemma json_all_here : forall P j, json_all P j = true -> P j = true.
+Proof. intros P j H. destruct j; cbn in H; apply andb_true_iff in H as [H _]; auto. Qed.
+
+Lemma list_eq2_refl : forall {A} (eq : A -> A -> bool) l, Forall (fun x => eq x x = true) l -> list_eq2 eq l l = true.
+Proof. induction 1; cbn; auto. rewrite H, IHForall. reflexivity. Qed.
+Lemma list_eq2_sym : forall {A} (eq : A -> A -> bool) l l', Forall (fun x => forall y, eq x y = eq y x) l ->
+  list_eq2 eq l l' = list_eq2 eq l' l.
+Proof.
+  intros A eq l l' F. revert l'. induction F as [|x l Hx F IH]; destruct l' as [|y l']; cbn; auto.
+  rewrite Hx, IH. reflexivity.
+Qed.
+Lemma list_eq2_Forall2 : forall {A} (eq : A -> A -> bool) l l', list_eq2 eq l l' = true <-> Forall2 (fun x y => eq x y = true) l l'.
+Proof.
+  induction l as [|x l IH]; destruct l' as [|y l']; cbn.
+  - split; auto.
+  - split; [discriminate | intro H; inversion H].
+  - split; [discriminate | intro H; inversion H].
+  - rewrite andb_true_iff, IH. split.
+    + intros [HA HB]. constructor; auto.
+    + intro H. inversion H; subst. auto.
+Qed.
+
+Lemma dict_rel_refl : forall {K V} (eqb : K -> K -> bool) (R : V -> V -> bool) (a : list (K * V)),
+  (forall k v, assoc_get eqb k a = Some v -> R v v = true) -> dict_rel eqb R a a.
+Proof. intros. split; [tauto|]. intros k v w A Bk. rewrite A in Bk. injection Bk as <-. eauto. Qed.
+Lemma dict_rel_sym : forall {K V} (eqb : K -> K -> bool) (R : V -> V -> bool) (a b : list (K * V)),
+  (forall k v w, assoc_get eqb k a = Some v -> R w v = R v w) -> dict_rel eqb R a b -> dict_rel eqb R b a.
+Proof.
+  intros K V eqb R a b S [KS PW]. split.
+  - intro k. symmetry. apply KS.
+  - intros k w v Bk A. rewrite (S k v w A). eauto.
+Qed.
+
+Lemma json_eq_refl : forall j, json_keys_ok j = true -> json_nobad j = true -> json_eq j j = true.
+Proof.
+  induction j using json_ind'; intros KO NB; cbn; auto.
+  - apply Bool.eqb_reflx.
+  - apply Z.eqb_refl.
+  - apply beq_refl.
+  - apply teq_refl.
+  - change (json_eq (JList l) (JList l) = true). rewrite json_eq_list. apply list_eq2_refl.
+    apply json_all_list in KO, NB. rewrite Forall_forall in *. auto.
+  - change (json_eq (JObj kv) (JObj kv) = true). rewrite json_eq_obj.
+    pose proof (json_all_here _ _ KO) as U. cbn in U. apply tkeys_unique_NoDup in U.
+    apply (dict_eqb_iff teq teq_eq json_eq); auto. apply dict_rel_refl.
+    intros k v A. apply (aget_In teq teq_eq) in A.
+    apply json_all_obj in KO, NB. rewrite Forall_forall in *. apply (H (k, v)); auto; try (apply (KO (k, v)); auto); try (apply (NB (k, v)); auto).
+Qed.
+
+Lemma json_eq_sym : forall a, json_keys_ok a = true -> forall b, json_keys_ok b = true -> json_eq a b = json_eq b a.
+Proof.
+  induction a using json_ind'; intros KA j KB; destruct j; try reflexivity.
+  - cbn. destruct b, b0; reflexivity.
+  - cbn. apply Z.eqb_sym.
+  - cbn. apply Z.eqb_sym.
+  - cbn. apply Z.eqb_sym.
+  - cbn. apply beq_sym.
+  - cbn. apply teq_sym.
+  - rewrite !json_eq_list. apply json_all_list in KA, KB. clear -H KA KB. revert l0 KB.
+    induction H as [|x l Hx F IH]; intros [|y l0] KB; cbn; auto.
+    inversion KA; subst. inversion KB; subst. rewrite Hx, IH; auto.
+  - rewrite !json_eq_obj.
+    pose proof (json_all_here _ _ KA) as UA. cbn in UA. apply tkeys_unique_NoDup in UA.
+    pose proof (json_all_here _ _ KB) as UB. cbn in UB. apply tkeys_unique_NoDup in UB.
+    apply json_all_obj in KA, KB. rewrite Forall_forall in H, KA, KB.
+    assert (S1 : forall k v w, assoc_get teq k kv = Some v -> assoc_get teq k kv0 = Some w -> json_eq w v = json_eq v w).
+    { intros k v w A Bk. apply (aget_In teq teq_eq) in A, Bk. symmetry. apply (H (k, v)); auto; try (apply (KA (k, v)); auto); try (apply (KB (k, w)); auto). }
+    destruct (dict_eqb teq json_eq kv kv0) eqn:E1; destruct (dict_eqb teq json_eq kv0 kv) eqn:E2; auto.
+    + apply (dict_eqb_iff teq teq_eq json_eq) in E1; auto.
+      assert (X : dict_rel teq json_eq kv0 kv); [|apply (dict_eqb_iff teq teq_eq json_eq) in X; auto; congruence].
+      destruct E1 as [KS PW]. split; [intro; symmetry; apply KS|]. intros k w v Bk A. rewrite (S1 k v w A Bk). eauto.
+    + apply (dict_eqb_iff teq teq_eq json_eq) in E2; auto.
+      assert (X : dict_rel teq json_eq kv kv0); [|apply (dict_eqb_iff teq teq_eq json_eq) in X; auto; congruence].
+      destruct E2 as [KS PW]. split; [intro; symmetry; apply KS|]. intros k v w A Bk. rewrite <- (S1 k v w A Bk). eauto.
+Qed.
+
+(* ---- values in option dicts ---- *)
+Definition wv_keys_ok (v : wv) : bool := match v with WDict j => json_keys_ok j | _ => true end.
+Definition wv_clean (v : wv) : bool :=
+  match v with WOther => false | WDict j => json_keys_ok j && json_nobad j | _ => true end.
+
+Lemma wv_eq_refl : forall v, wv_clean v = true -> wv_eq v v = true.
+Proof.
+  destruct v; cbn; intro H; auto; try discriminate.
+  - apply Bool.eqb_reflx. - apply Z.eqb_refl. - apply teq_refl. - apply beq_refl.
+  - apply andb_true_iff in H as [H1 H2]. apply json_eq_refl; auto.
+Qed.
+Lemma wv_eq_sym : forall a b, wv_keys_ok a = true -> wv_keys_ok b = true -> wv_eq a b = wv_eq b a.
+Proof.
+  intros a b; destruct a, b; cbn; intros KA KB; auto;
+    try apply Z.eqb_sym; try apply teq_sym; try apply beq_sym; try (apply json_eq_sym; auto; fail).
+  repeat match goal with x : bool |- _ => destruct x end; reflexivity.
+Qed.
+
+(* ---- predicates on every options dict / metadata dict of a tree ---- *)
+Definition file_all (Po : dopts -> bool) (Pm : list (text * json) -> bool) (f : dfile) : bool :=
+  Po (f_opts f) && Po (m_opts (f_meta f)) && Pm (m_content (f_meta f)) && Po (x_opts (f_diff f)).
+Definition change_all (Po : dopts -> bool) (Pm : list (text * json) -> bool) (c : dchange) : bool :=
+  Po (c_opts c) && Po (p_opts (c_pre c)) && Po (m_opts (c_meta c)) && Pm (m_content (c_meta c)) &&
+  forallb (file_all Po Pm) (c_files c).
+Definition tree_all (Po : dopts -> bool) (Pm : list (text * json) -> bool) (t : dtree) : bool :=
+  Po (d_opts t) && Po (p_opts (d_pre t)) && Po (m_opts (d_meta t)) && Pm (m_content (d_meta t)) &&
+  forallb (change_all Po Pm) (d_changes t).
+
+(* every options dict has unique keys (true of any Python dict) *)
+Definition tree_unique : dtree -> bool := tree_all keys_unique (fun _ => true).
+(* ... and so has every dict inside the metadata and inside option values *)
+Definition opts_wf (o : dopts) : bool := keys_unique o && forallb (fun p => wv_keys_ok (snd p)) o.
+Definition tree_wf : dtree -> bool := tree_all opts_wf (fun m => json_keys_ok (JObj m)).
+(* ... and no value is an object json.dumps rejects / an unmodelled object (modelled as unequal to itself) *)
+Definition opts_clean (o : dopts) : bool := keys_unique o && forallb (fun p => wv_clean (snd p)) o.
+Definition tree_clean : dtree -> bool := tree_all opts_clean (fun m => json_keys_ok (JObj m) && json_nobad (JObj m)).
+
+Ltac bsplit H := repeat match type of H with (_ && _ = true) => let H' := fresh H in apply andb_true_iff in H as [H H'] end.
+
+Lemma dopts_eq_refl : forall o, opts_clean o = true -> dopts_eq o o = true.
+Proof.
+  intros o H. unfold opts_clean in H. apply andb_true_iff in H as [U C]. apply keys_unique_NoDup in U.
+  rewrite dopts_eq_dict. apply (dict_eqb_iff beq beq_eq wv_eq); auto. apply dict_rel_refl.
+  intros k v A. apply (aget_In beq beq_eq) in A. rewrite forallb_forall in C. apply wv_eq_refl. apply (C (k, v)); auto.
+Qed.
+Lemma dopts_eq_sym : forall a b, opts_wf a = true -> opts_wf b = true -> dopts_eq a b = dopts_eq b a.
+Proof.
+  intros a b HA HB. unfold opts_wf in *. apply andb_true_iff in HA as [UA CA]. apply andb_true_iff in HB as [UB CB].
+  apply keys_unique_NoDup in UA, UB. rewrite forallb_forall in CA, CB. rewrite !dopts_eq_dict.
+  assert (S1 : forall k v w, assoc_get beq k a = Some v -> assoc_get beq k b = Some w -> wv_eq w v = wv_eq v w).
+  { intros k v w A Bk. apply (aget_In beq beq_eq) in A, Bk. apply wv_eq_sym; [apply (CB (k, w)) | apply (CA (k, v))]; auto. }
+  destruct (dict_eqb beq wv_eq a b) eqn:E1; destruct (dict_eqb beq wv_eq b a) eqn:E2; auto.
+  - apply (dict_eqb_iff beq beq_eq wv_eq) in E1; auto.
+    assert (X : dict_rel beq wv_eq b a); [|apply (dict_eqb_iff beq beq_eq wv_eq) in X; auto; congruence].
+    destruct E1 as [KS PW]. split; [intro; symmetry; apply KS|]. intros k w v Bk A. rewrite (S1 k v w A Bk). eauto.
+  - apply (dict_eqb_iff beq beq_eq wv_eq) in E2; auto.
+    assert (X : dict_rel beq wv_eq a b); [|apply (dict_eqb_iff beq beq_eq wv_eq) in X; auto; congruence].
+    destruct E2 as [KS PW]. split; [intro; symmetry; apply KS|]. intros k v w A Bk. rewrite <- (S1 k v w A Bk). eauto.
+Qed.
+Lemma opt_text_eq_iff : forall a b, opt_text_eq a b = true <-> a = b.
+Proof.
+  destruct a, b; cbn; try (split; [discriminate|discriminate]); try tauto.
+  rewrite teq_eq. split; [intros ->; auto | intro H; injection H; auto].
+Qed.
+Lemma opt_bytes_eq_iff : forall a b, opt_bytes_eq a b = true <-> a = b.
+Proof.
+  destruct a, b; cbn; try (split; [discriminate|discriminate]); try tauto.
+  rewrite beq_eq. split; [intros ->; auto | intro H; injection H; auto].
+Qed.
+Lemma opt_text_eq_sym : forall a b, opt_text_eq a b = opt_text_eq b a.
+Proof. destruct a, b; cbn; auto. apply teq_sym. Qed.
+Lemma opt_bytes_eq_sym : forall a b, opt_bytes_eq a b = opt_bytes_eq b a.
+Proof. destruct a, b; cbn; auto. apply beq_sym. Qed.
+
+(* ---- C19_eq_refl ---- *)
+Lemma file_eq_refl : forall f, file_all opts_clean (fun m => json_keys_ok (JObj m) && json_nobad (JObj m)) f = true -> file_eq f f = true.
+Proof.
+  intros f H. unfold file_all in H. bsplit H. apply andb_true_iff in H1 as [K N].
+  unfold file_eq, msec_eq, dsec_eq. rewrite !dopts_eq_refl, json_eq_refl by auto.
+  cbn. apply opt_bytes_eq_iff. reflexivity.
+Qed.
+Lemma change_eq_refl : forall c, change_all opts_clean (fun m => json_keys_ok (JObj m) && json_nobad (JObj m)) c = true -> change_eq c c = true.
+Proof.
+  intros c H. unfold change_all in H. bsplit H. apply andb_true_iff in H1 as [K N].
+  unfold change_eq, msec_eq, psec_eq. rewrite !dopts_eq_refl, json_eq_refl by auto.
+  replace (opt_text_eq (p_content (c_pre c)) (p_content (c_pre c))) with true by (symmetry; apply opt_text_eq_iff; auto).
+  cbn. apply list_eq2_refl. rewrite forallb_forall in H0. apply Forall_forall. intros f I. apply file_eq_refl; auto.
+Qed.
+Theorem C19_eq_refl : forall t, tree_clean t = true -> tree_eq t t = true.
+Proof.
+  intros t H. unfold tree_clean, tree_all in H. bsplit H. apply andb_true_iff in H1 as [K N].
+  unfold tree_eq, msec_eq, psec_eq. rewrite !dopts_eq_refl, json_eq_refl by auto.
+  replace (opt_text_eq (p_content (d_pre t)) (p_content (d_pre t))) with true by (symmetry; apply opt_text_eq_iff; auto).
+  cbn. apply list_eq2_refl. rewrite forallb_forall in H0. apply Forall_forall. intros c I. apply change_eq_refl; auto.
+Qed.
+
+(* ---- C19_eq_sym ---- *)
+Lemma list_eq2_sym2 : forall {A} (eq : A -> A -> bool) (P : A -> bool) l l',
+  (forall x y, P x = true -> P y = true -> eq x y = eq y x) -> forallb P l = true -> forallb P l' = true ->
+  list_eq2 eq l l' = list_eq2 eq l' l.
+Proof.
+  intros A eq P l l' S. revert l'. induction l as [|x l IH]; destruct l' as [|y l']; cbn; auto.
+  intros H1 H2. apply andb_true_iff in H1 as [? ?]. apply andb_true_iff in H2 as [? ?]. rewrite S, IH; auto.
+Qed.
+Lemma file_eq_sym : forall a b, file_all opts_wf (fun m => json_keys_ok (JObj m)) a = true ->
+  file_all opts_wf (fun m => json_keys_ok (JObj m)) b = true -> file_eq a b = file_eq b a.
+Proof.
+  intros a b HA HB. unfold file_all in *. bsplit HA. bsplit HB. unfold file_eq, msec_eq, dsec_eq.
+  rewrite (dopts_eq_sym (f_opts a)), (dopts_eq_sym (m_opts (f_meta a))), (dopts_eq_sym (x_opts (f_diff a))) by auto.
+  rewrite (json_eq_sym (JObj (m_content (f_meta a)))) by auto. rewrite (opt_bytes_eq_sym (x_content (f_diff a))). reflexivity.
+Qed.
+Lemma change_eq_sym : forall a b, change_all opts_wf (fun m => json_keys_ok (JObj m)) a = true ->
+  change_all opts_wf (fun m => json_keys_ok (JObj m)) b = true -> change_eq a b = change_eq b a.
+Proof.
+  intros a b HA HB. unfold change_all in *. bsplit HA. bsplit HB. unfold change_eq, msec_eq, psec_eq.
+  rewrite (dopts_eq_sym (c_opts a)), (dopts_eq_sym (m_opts (c_meta a))), (dopts_eq_sym (p_opts (c_pre a))) by auto.
+  rewrite (json_eq_sym (JObj (m_content (c_meta a)))) by auto. rewrite (opt_text_eq_sym (p_content (c_pre a))).
+  f_equal. eapply list_eq2_sym2; eauto. apply file_eq_sym.
+Qed.
+Theorem C19_eq_sym : forall a b, tree_wf a = true -> tree_wf b = true -> tree_eq a b = tree_eq b a.
+Proof.
+  intros a b HA HB. unfold tree_wf, tree_all in *. bsplit HA. bsplit HB. unfold tree_eq, msec_eq, psec_eq.
+  rewrite (dopts_eq_sym (d_opts a)), (dopts_eq_sym (m_opts (d_meta a))), (dopts_eq_sym (p_opts (d_pre a))) by auto.
+  rewrite (json_eq_sym (JObj (m_content (d_meta a)))) by auto. rewrite (opt_text_eq_sym (p_content (d_pre a))).
+  f_equal. eapply list_eq2_sym2; eauto. apply change_eq_sym.
+Qed.
+
+(* ---- C19_eq_strict_iff: tree_eq means same shape and, section by section, equal options and content ---- *)
+Definition dopts_same : dopts -> dopts -> Prop := dict_rel beq wv_eq.
+Definition psec_same (a b : psec) : Prop := dopts_same (p_opts a) (p_opts b) /\ p_content a = p_content b.
+Definition msec_same (a b : msec) : Prop :=
+  dopts_same (m_opts a) (m_opts b) /\ json_eq (JObj (m_content a)) (JObj (m_content b)) = true.
+Definition dsec_same (a b : dsec) : Prop := dopts_same (x_opts a) (x_opts b) /\ x_content a = x_content b.
+Definition file_same (a b : dfile) : Prop :=
+  dopts_same (f_opts a) (f_opts b) /\ msec_same (f_meta a) (f_meta b) /\ dsec_same (f_diff a) (f_diff b).
+Definition change_same (a b : dchange) : Prop :=
+  dopts_same (c_opts a) (c_opts b) /\ psec_same (c_pre a) (c_pre b) /\ msec_same (c_meta a) (c_meta b) /\
+  Forall2 file_same (c_files a) (c_files b).
+Definition tree_same (a b : dtree) : Prop :=
+  dopts_same (d_opts a) (d_opts b) /\ psec_same (d_pre a) (d_pre b) /\ msec_same (d_meta a) (d_meta b) /\
+  Forall2 change_same (d_changes a) (d_changes b).
+
+Lemma dopts_eq_iff : forall a b, keys_unique a = true -> keys_unique b = true -> (dopts_eq a b = true <-> dopts_same a b).
+Proof. intros a b UA UB. apply keys_unique_NoDup in UA, UB. rewrite dopts_eq_dict. apply (dict_eqb_iff beq beq_eq wv_eq); auto. Qed.
+Lemma list_eq2_iff : forall {A} (eq : A -> A -> bool) (S : A -> A -> Prop) (P : A -> bool) l l',
+  (forall x y, P x = true -> P y = true -> (eq x y = true <-> S x y)) -> forallb P l = true -> forallb P l' = true ->
+  (list_eq2 eq l l' = true <-> Forall2 S l l').
+Proof.
+  intros A eq S P l l' E. revert l'. induction l as [|x l IH]; destruct l' as [|y l']; cbn; intros H1 H2.
+  - split; auto.
+  - split; [discriminate | intro H; inversion H].
+  - split; [discriminate | intro H; inversion H].
+  - apply andb_true_iff in H1 as [? ?]. apply andb_true_iff in H2 as [? ?]. rewrite andb_true_iff, IH, E by auto. split.
+    + intros [HA HB]. constructor; auto.
+    + intro H3. inversion H3; subst. auto.
+Qed.
+Lemma file_eq_iff : forall a b, file_all keys_unique (fun _ => true) a = true -> file_all keys_unique (fun _ => true) b = true ->
+  (file_eq a b = true <-> file_same a b).
+Proof.
+  intros a b HA HB. unfold file_all in *. bsplit HA. bsplit HB.
+  unfold file_eq, file_same, msec_eq, dsec_eq, msec_same, dsec_same.
+  rewrite !andb_true_iff, !dopts_eq_iff, opt_bytes_eq_iff by auto. tauto.
+Qed.
+Lemma change_eq_iff : forall a b, change_all keys_unique (fun _ => true) a = true -> change_all keys_unique (fun _ => true) b = true ->
+  (change_eq a b = true <-> change_same a b).
+Proof.
+  intros a b HA HB. unfold change_all in *. bsplit HA. bsplit HB.
+  unfold change_eq, change_same, msec_eq, psec_eq, msec_same, psec_same.
+  rewrite !andb_true_iff, !dopts_eq_iff, opt_text_eq_iff by auto.
+  rewrite (list_eq2_iff file_eq file_same (file_all keys_unique (fun _ => true))); auto using file_eq_iff. tauto.
+Qed.
+Theorem C19_eq_strict_iff : forall a b, tree_unique a = true -> tree_unique b = true ->
+  (tree_eq a b = true <-> tree_same a b).
+Proof.
+  intros a b HA HB. unfold tree_unique, tree_all in *. bsplit HA. bsplit HB.
+  unfold tree_eq, tree_same, msec_eq, psec_eq, msec_same, psec_same.
+  rewrite !andb_true_iff, !dopts_eq_iff, opt_text_eq_iff by auto.
+  rewrite (list_eq2_iff change_eq change_same (change_all keys_unique (fun _ => true))); auto using change_eq_iff. tauto.
+Qed.
